@@ -17,9 +17,12 @@ LEVEL_TEXT = ("generated systems and histories of attribute assignments, list as
 LEVEL_NOTE = "the reference model is the harness' spec with Python list semantics"
 RULE = ("Hypothesis draws a system spec (short series) and a history of 1-10 steps among: link assignment, list "
         "assignment, list mutators (append, insert, extend, +=, *=, pop, remove, del, item assignment, clear) with "
-        "present / duplicate / no-op arguments, invalid list operations (remove absent, pop/del/insert out of range), "
+        "present / duplicate / no-op arguments given as list, tuple, iterator or generator, in-place operations that "
+        "fail during recomputation (a job deleting 10^6 TB) followed by another operation on the same list, invalid "
+        "list operations (remove absent, pop/del/insert out of range), "
         "self_delete of referenced and unreferenced objects, add/remove usage pattern, and attempts to put an object "
-        "of a second system into the first (and vice versa). After every step: list contents equal Python-list "
+        "of a second system into the first (and vice versa), directly or through a newly created job hosted on the other "
+        "system's server. After every step: list contents equal Python-list "
         "semantics on the spec; modeling_obj_containers of every object equal the spec's referrers; server.jobs, "
         "storage.jobs, job.usage_patterns/networks, journey.usage_patterns, network.usage_patterns/jobs, X.systems "
         "equal the spec's reachability; rejected operations change nothing; no object has two systems. Non-trivial = "
